@@ -48,13 +48,14 @@ PickW(ws) == LET s == Expand(ws) IN s[Pick(1..Len(s))]
 (*  interpreter rejects a label declared inside a case clause - known finding)    *)
 Ctx0 == [rd |-> {"g0", "g1"}, wr |-> {"g0", "g1"}, loc |-> {}, defd |-> {}, labs |-> <<>>, incase |-> FALSE, pure |-> FALSE,
          fcall |-> TRUE, clos |-> {}, fs |-> FALSE, ret |-> "none", rvar |-> FALSE, dfr |-> FALSE, top |-> FALSE,
-         litidx |-> FALSE, d |-> 2]
+         litidx |-> FALSE, ptrs |-> {}, d |-> 2]
 
 RECURSIVE GenE(_, _), GenC(_, _), GenS(_), GenB(_, _), GenLitBody(_), GenDeferBody(_)
 
 GenLeaf(c) ==
-    LET k == PickW(<< <<3, "lit">>, <<4, "var">>, <<1, "fld">>, <<1, "idx">> >>) IN
+    LET k == PickW(<< <<3, "lit">>, <<4, "var">>, <<1, "fld">>, <<1, "idx">>, <<IF c.ptrs # {} THEN 2 ELSE 0, "deref">> >>) IN
     CASE k = "lit" -> Lit(Pick(0..5))
+      [] k = "deref" -> [k |-> "deref", p |-> Pick(c.ptrs)]
       [] k = "var" -> Var(Pick(c.rd))
       [] k = "fld" -> [k |-> "fld", f |-> Pick({"a", "b"})]
       [] k = "idx" -> [k |-> "idx", i |-> IF c.litidx \/ Pick(1..2) = 1 THEN Lit(Pick(0..1)) ELSE Var(Pick(c.rd))]
@@ -93,6 +94,7 @@ GenC(d, c) ==
 InSwitchOfLoop(c) == FALSE
 FreeNames(c) == {"x", "y", "z"} \ c.defd
 FreeClos(c)  == {"c1", "c2"} \ (c.defd \cup c.clos)
+FreePtrs(c)  == {"p1", "p2"} \ (c.defd \cup c.ptrs)
 Inner(c)     == [c EXCEPT !.defd = {}, !.d = c.d - 1]
 
 \* body of a function literal of type func() int: its locals are its own
@@ -129,6 +131,10 @@ Kinds(c) ==
           <<IF c.fcall /\ ~c.pure /\ (c.loc \cap c.wr) # {} THEN 2 ELSE 0, "opasgc">>,
           <<IF deep /\ c.fcall /\ ~c.pure THEN 1 ELSE 0, "ifc">>,
           <<IF deep THEN 3 ELSE 0, "if">>, <<IF deep THEN 3 ELSE 0, "for">>, <<IF deep THEN 2 ELSE 0, "switch">>,
+          <<IF deep THEN 2 ELSE 0, "rng">>, <<IF deep THEN 1 ELSE 0, "tswitch">>,
+          <<IF deep /\ FreeNames(c) # {} THEN 1 ELSE 0, "ifinit">>, <<eff, "iswap">>,
+          <<IF FreePtrs(c) # {} /\ ~c.pure THEN 1 ELSE 0, "mkptr">>,
+          <<IF c.ptrs # {} THEN 2 ELSE 0, "pset">>, <<IF c.ptrs # {} THEN 2 ELSE 0, "pop">>,
           <<IF loop THEN 2 ELSE 0, "brk">>, <<IF loop THEN 2 ELSE 0, "cont">>,
           <<IF c.ret # "none" /\ Profile = "core" THEN 1 ELSE 0, "ret">>,
           <<IF deep /\ FreeClos(c) # {} THEN 2 * eff ELSE 0, "mkclo">>,
@@ -154,7 +160,9 @@ GenS(c) ==
       [] k = "asg2"  -> LET x == Pick(c.wr) IN
                         S([k |-> "asg2", x |-> x, y |-> Pick(IF Cardinality(c.wr) > 1 THEN c.wr \ {x} ELSE c.wr), e |-> GenE(1, c)])
       [] k = "fset"  -> S([k |-> "fset", f |-> Pick({"a", "b"}), e |-> GenE(1, c)])
-      [] k = "tlit"  -> S([k |-> "tlit", a |-> GenE(1, c), b |-> GenE(1, c)])
+      \* Excluded_F_C01_8: no dereference inside the elements of a composite literal
+      [] k = "tlit"  -> LET c2 == IF Pinned THEN c ELSE [c EXCEPT !.ptrs = {}] IN
+                        S([k |-> "tlit", a |-> GenE(1, c2), b |-> GenE(1, c2)])
       [] k = "iset"  -> S([k |-> "iset", i |-> GenLeaf(c), e |-> GenE(1, c)])
       [] k = "iop"   -> S([k |-> "iop", i |-> GenE(1, c), e |-> GenE(1, c)])
       [] k = "print" -> S([k |-> "print", id |-> Pick(100..99999), e |-> GenE(2, c)])
@@ -175,6 +183,25 @@ GenS(c) ==
                             c1  == [Inner(c) EXCEPT !.rd = @ \cup {v}, !.wr = IF Pinned THEN @ \cup {v} ELSE @ \ {v},
                                                     !.loc = @ \cup {v}, !.labs = Append(@, lab)]
                         IN S([k |-> "for", v |-> v, n |-> Pick(1..3), lab |-> lab, body |-> GenB(Pick(1..3), c1)])
+      [] k = "rng"   -> LET v   == <<"i", "j", "k">>[Len(c.labs) + 1]
+                            lab == IF c.incase /\ ~Pinned THEN "" ELSE <<"L1", "L2", "L3">>[Len(c.labs) + 1]
+                            c1  == [Inner(c) EXCEPT !.rd = @ \cup {v}, !.wr = IF Pinned THEN @ \cup {v} ELSE @ \ {v},
+                                                    !.loc = @ \cup {v}, !.labs = Append(@, lab)]
+                        IN S([k |-> "rng", v |-> v, n |-> Pick(1..3), lab |-> lab, body |-> GenB(Pick(1..3), c1)])
+      [] k = "tswitch" -> LET n == Pick(1..2)
+                              c1 == [Inner(c) EXCEPT !.incase = TRUE]
+                          IN S([k |-> "tswitch", cases |-> [i \in 1..n |-> [c |-> GenC(1, c), body |-> GenB(Pick(1..2), c1)]],
+                                dflt |-> GenB(Pick(0..1), c1)])
+      [] k = "ifinit" -> LET x  == Pick(FreeNames(c))
+                             c1 == [Inner(c) EXCEPT !.rd = @ \cup {x}, !.wr = @ \cup {x}, !.loc = @ \cup {x}]
+                         IN S([k |-> "ifinit", x |-> x, e |-> GenE(1, c), c |-> Cmp(Pick({"lt", "le", "eq", "ne"}), Var(x), Lit(Pick(0..5))),
+                               th |-> GenB(Pick(1..2), c1), el |-> IF Pick(1..2) = 1 THEN GenB(1, c1) ELSE <<>>])
+      [] k = "iswap" -> S([k |-> "iswap"])
+      [] k = "mkptr" -> LET pn == Pick(FreePtrs(c)) IN
+                        [s |-> [k |-> "mkptr", p |-> pn, x |-> Pick(c.wr)],
+                         c |-> [c EXCEPT !.ptrs = @ \cup {pn}, !.defd = @ \cup {pn}]]
+      [] k = "pset"  -> S([k |-> "pset", p |-> Pick(c.ptrs), e |-> GenE(1, c)])
+      [] k = "pop"   -> S([k |-> "pop", p |-> Pick(c.ptrs), op |-> Pick({"add", "sub"}), e |-> GenE(1, c)])
       [] k = "switch" -> LET n  == Pick(1..2)
                              vs == IF n = 1 THEN <<Pick(0..3)>> ELSE LET a == Pick(0..3) IN <<a, (a + Pick(1..3)) % 4>>
                              c1 == [Inner(c) EXCEPT !.incase = TRUE]
@@ -327,6 +354,10 @@ Witnesses ==
       WProg("recover-in-a-loop-of-a-deferred-call",
             << DLit(<< For2(<< Rec("direct", FALSE) >>) >>), PanicS(6) >>,
             << PrintS(CallE("f", Lit(1))), [k |-> "printg"] >>),
+      WProg("dereference-in-composite-literal-element", <<>>,
+            << [k |-> "mkptr", p |-> "p1", x |-> "g0"],
+               [k |-> "tlit", a |-> Lit(1), b |-> Bin("add", Lit(3), [k |-> "deref", p |-> "p1"])],
+               [k |-> "printg"] >>),
       WProg("loop-variable-in-deferred-literal",
             << For2(<<DLit(<<PrintS(Var("i"))>>)>>) >>,
             << PrintS(CallE("f", Lit(1))) >>) }
